@@ -81,7 +81,7 @@ add("C03", M, MDM, "        elif self._transform == \"group_min\":\n            
 add("C03", M, GM, "            metric=base_metric, transform=variant, sample_param_names=[\"sample_weight\"]", "            metric=base_metric, transform=variants[0], sample_param_names=[\"sample_weight\"]", "loop variable misuse")
 add("C03", R, FM, "    result = sel_rate.difference(method=method)\n    return result", "    return sel_rate.difference(method=method)", "temporary inlined")
 add("C03", R, FM, "    fns = {\"tpr\": true_positive_rate, \"fpr\": false_positive_rate}\n    sw_dict = {\"sample_weight\": sample_weight}\n    sp = {\"tpr\": sw_dict, \"fpr\": sw_dict}",
-    "    sw_dict = {\"sample_weight\": sample_weight}\n    fns = {\"fpr\": false_positive_rate, \"tpr\": true_positive_rate}\n    sp = {\"fpr\": sw_dict, \"tpr\": sw_dict}", "dict order / statement order")
+    "    sw_dict = {\"sample_weight\": sample_weight}\n    fns = {\"tpr\": true_positive_rate, \"fpr\": false_positive_rate}\n    sp = {\"fpr\": sw_dict, \"tpr\": sw_dict}", "sample-param dict order / statement order")
 
 # ------------------------------------------------------------------ C04 / C05
 add("C04", M, TC, "p0 = x_distance_from_next_data_point / x_distance_between_data_points", "p0 = x_distance_between_data_points / x_distance_from_next_data_point", "p0 inverted")
